@@ -421,6 +421,8 @@ pub struct ProbeEv {
 
 pub struct VFile {
     pub data: Vec<u8>,
+    /// modification time (wall clock, ns since the epoch): when the bytes were last written
+    pub mtime_ns: u64,
 }
 struct OpenFd {
     path: String,
@@ -1588,10 +1590,14 @@ pub fn hook_open(path: &[u8], flags: i32) -> Option<Result<i32, i32>> {
         }
     }
     if !exists {
-        s.files.insert(p.clone(), VFile { data: vec![] });
+        let now = REALTIME_EPOCH_NS + s.clock_ns;
+        s.files.insert(p.clone(), VFile { data: vec![], mtime_ns: now });
     }
     if flags & libc::O_TRUNC != 0 {
-        s.files.get_mut(&p).unwrap().data.clear();
+        let now = REALTIME_EPOCH_NS + s.clock_ns;
+        let f = s.files.get_mut(&p).unwrap();
+        f.data.clear();
+        f.mtime_ns = now;
     }
     // reserve a real descriptor number
     let fd = unsafe { raw_syscall6(libc::SYS_openat, libc::AT_FDCWD as i64, b"/dev/null\0".as_ptr() as i64, (libc::O_RDONLY | libc::O_CLOEXEC) as i64, 0, 0, 0) };
@@ -1826,7 +1832,9 @@ pub fn hook_write(fd: i32, buf: &[u8]) -> Option<Result<usize, i32>> {
             }
         }
     }
-    let file = s.files.entry(path).or_insert(VFile { data: vec![] });
+    let now = REALTIME_EPOCH_NS + s.clock_ns;
+    let file = s.files.entry(path).or_insert(VFile { data: vec![], mtime_ns: now });
+    file.mtime_ns = now;
     let at = if append { file.data.len() } else { pos };
     if file.data.len() < at + n {
         file.data.resize(at + n, 0);
@@ -1868,7 +1876,7 @@ pub fn hook_lseek(fd: i32, off: i64, whence: i32) -> Option<Result<i64, i32>> {
 }
 
 /// size and kind for stat-like calls: Some(Ok((is_dir, len)))
-pub fn hook_stat_path(path: &[u8]) -> Option<Result<(bool, u64), i32>> {
+pub fn hook_stat_path(path: &[u8]) -> Option<Result<(bool, u64, u64), i32>> {
     if !is_sim_path(path) {
         return None;
     }
@@ -1876,15 +1884,15 @@ pub fn hook_stat_path(path: &[u8]) -> Option<Result<(bool, u64), i32>> {
     let s = sim();
     let p = String::from_utf8_lossy(path).to_string();
     if p == "/sim" || p == "/sim/" {
-        return Some(Ok((true, 0)));
+        return Some(Ok((true, 0, REALTIME_EPOCH_NS)));
     }
     match s.files.get(&p) {
-        Some(_) if s.cfg.pipe_like_paths.iter().any(|x| p.contains(x.as_str())) => Some(Ok((false, 0))),
-        Some(f) => Some(Ok((false, f.data.len() as u64))),
+        Some(f) if s.cfg.pipe_like_paths.iter().any(|x| p.contains(x.as_str())) => Some(Ok((false, 0, f.mtime_ns))),
+        Some(f) => Some(Ok((false, f.data.len() as u64, f.mtime_ns))),
         None => Some(Err(libc::ENOENT)),
     }
 }
-pub fn hook_stat_fd(fd: i32) -> Option<Result<(bool, u64), i32>> {
+pub fn hook_stat_fd(fd: i32) -> Option<Result<(bool, u64, u64), i32>> {
     if !is_sim_fd(fd) {
         return None;
     }
@@ -1892,10 +1900,11 @@ pub fn hook_stat_fd(fd: i32) -> Option<Result<(bool, u64), i32>> {
     let s = sim();
     let path = s.fds[&fd].path.clone();
     let len = s.files.get(&path).map(|f| f.data.len()).unwrap_or(0) as u64;
+    let mtime = s.files.get(&path).map(|f| f.mtime_ns).unwrap_or(REALTIME_EPOCH_NS);
     if s.cfg.pipe_like_paths.iter().any(|p| path.contains(p.as_str())) {
-        return Some(Ok((false, 0)));
+        return Some(Ok((false, 0, mtime)));
     }
-    Some(Ok((false, len)))
+    Some(Ok((false, len, mtime)))
 }
 
 /// rename / unlink of simulated files by the code under test
@@ -1954,7 +1963,16 @@ pub fn swallow_fd(fd: i32) -> bool {
 
 impl Sim {
     pub fn put_file(&mut self, path: &str, data: Vec<u8>) {
-        self.files.insert(path.to_string(), VFile { data });
+        let now = REALTIME_EPOCH_NS + self.clock_ns;
+        self.files.insert(path.to_string(), VFile { data, mtime_ns: now });
+    }
+    /// a file moved into place with its times kept (`mv`, `cp -p`, `rsync -t`): its modification time is older
+    /// than the moment it appeared under the name
+    pub fn put_file_with_mtime(&mut self, path: &str, data: Vec<u8>, mtime_ns: u64) {
+        self.files.insert(path.to_string(), VFile { data, mtime_ns });
+    }
+    pub fn mtime_of(&self, path: &str) -> Option<u64> {
+        self.files.get(path).map(|f| f.mtime_ns)
     }
     pub fn get_file(&self, path: &str) -> Option<&[u8]> {
         self.files.get(path).map(|f| f.data.as_slice())
